@@ -53,6 +53,13 @@ def parse_texts(tier, rnd):
             continue
         t = (2 ** 53 + 1) * 2 ** k
         out += [str(t), str(t + 1), str(t - 1), str((2 ** 53 + 3) * 2 ** k)]
+    # a midpoint plus / minus an excess many places further out (the tail scan has to look at every later bignum digit,
+    # 9 decimal digits each; the excess sits alone in a far one)
+    for k in (0, 1, 7):
+        t = (2 ** 53 + 1) * 2 ** k
+        for gap in (1, 8, 9, 17, 18, 19, 26, 27, 36, 45):
+            out += ["%d.%s1" % (t, "0" * gap), "-%d.%s1" % (t, "0" * gap), "%d.%s" % (t - 1, "9" * (gap + 1)), "%d.%s5" % (t, "0" * gap)]
+        out += ["0.%s(%d%s2)" % ("0" * 19, 2 ** 53 + 1, "0" * 18), "%d%s1e-%d" % (t, "0" * 20, 21)]
     for k in (1, 2, 10, 50):
         # (2^53+1) / 2^(k) exactly in decimal
         num = (2 ** 53 + 1) * 5 ** k
@@ -179,6 +186,17 @@ def c10(tier, replay=None):
                 fcases.append(("auto", d, su, rule, 0))
     if tier == "quick":
         rnd.shuffle(fcases); fcases = fcases[:900]
+    # values whose discarded digits are "exactly one half, zeros, then a small excess (or nothing)" at a coarse scale:
+    # the half and the excess fall into different 9-digit groups of the decimal expansion
+    for m_ in (10, 11, 13, 15):
+        for n_ in (0, 1, 2, 3, 6):
+            base_ = n_ * 10 ** m_ + 5 * 10 ** (m_ - 1)
+            for delta in (0.0, 0.5, 1.0, 0.25, 3.0, -0.5, -1.0):
+                d = float(base_) + delta
+                if d == base_ + delta and abs(d) < 2 ** 52:
+                    for sgn in (1.0, -1.0):
+                        fcases.append(("init", sgn * d, 0.0, -m_, 5))
+                        fcases.append(("init", sgn * d, 0.0, -m_, 0))
 
     def run_format(ch):
         cmds = []
